@@ -86,8 +86,61 @@ def form_case(ctx, form):
     ctx.record({"form": form}, nontrivial)
 
 
+def include_run(ctx, main, inc):
+    """Build main + included section with builder.create_survey(sections=…) and evaluate the oracle."""
+    from types import SimpleNamespace
+
+    from pyxform.builder import create_survey
+    from pyxform.xls2json import workbook_to_json
+    from pyxform.xls2json_backends import get_xlsform
+
+    def section(form, name):
+        return workbook_to_json(workbook_dict=get_xlsform(xlsform=impl.wb_dict(form)), form_name=name, fallback_form_name=name)
+
+    form = {"include": {"main": main, "address": inc}}
+
+    def run():
+        survey = create_survey(name_of_main_section="contact",
+                               sections={"contact": section(main, "contact"), "address": section(inc, "address")})
+        return SimpleNamespace(xform=survey.to_xml(validate=False, pretty_print=False), warnings=[], itemsets=None)
+
+    r = impl.classify_call(run)
+    ctx.count("include-impl:" + r["class"])
+    if r["class"] == "internal":
+        ctx.fail(Failure("include-crash", f"{r.get('exc')} at {r.get('site')}: {r.get('msg', '')[:200]}", {"form": form}))
+    elif r["ok"]:
+        oracle(ctx, form, formobs.observe(r["xform"]))
+    ctx.record({"form": form}, r["ok"])
+
+
+def include_case(ctx, rng):
+    """A form assembled from several sections with `include` rows: the same section included under 1..3
+    groups / repeats of the main form.  Outside the Lean fragment: oracle only."""
+    kinds = [("text", {}), ("integer", {}), ("calculate", {"calculation": "1 + 1"}), ("text", {"hint": "h", "label": ""}),
+             ("select_one yn", {}), ("decimal", {"required": "yes"})]
+    inc_rows = []
+    for i, (t, extra) in enumerate(rng.sample(kinds, rng.randint(1, 4))):
+        r = {"type": t, "name": f"inc{i}", "label": f"Inc {i}"}
+        r.update(extra)
+        inc_rows.append({k: v for k, v in r.items() if v != ""})
+    if rng.random() < 0.4:
+        inc_rows = [{"type": "begin group", "name": "incg", "label": "G"}] + inc_rows + [{"type": "end group"}]
+    choices = [{"list_name": "yn", "name": "y", "label": "Yes"}, {"list_name": "yn", "name": "n", "label": "No"}]
+    inc = {"survey": inc_rows, "choices": choices, "settings": [{"omit_instanceID": "yes"}]}
+    main_rows = [{"type": "text", "name": "person", "label": "Name"}]
+    n_inc = rng.randint(1, 3)
+    for j in range(n_inc):
+        sec = rng.choice(["group", "group", "repeat"])
+        main_rows += [{"type": f"begin {sec}", "name": f"host{j}", "label": f"Host {j}"},
+                      {"type": "include", "name": "address"}, {"type": f"end {sec}"}]
+    ctx.count(f"include:{n_inc}")
+    include_run(ctx, {"survey": main_rows, "choices": choices}, inc)
+
+
 def explore(ctx, factor, bs):
     rng = ctx.rng
+    for _ in range(ctx.pick(40, 600) * factor):
+        include_case(ctx, rng)
     n = ctx.pick(1200, 30000) * factor
     for i in range(n):
         big = not ctx.quick()
@@ -117,7 +170,11 @@ def explore(ctx, factor, bs):
 
 def replay(ctx, payload, bs):
     before = len(ctx.failures), len(ctx.mismatches)
-    form_case(ctx, payload["case"]["form"])
+    form = payload["case"]["form"]
+    if "include" in form:
+        include_run(ctx, form["include"]["main"], form["include"]["address"])
+    else:
+        form_case(ctx, form)
     return (len(ctx.failures), len(ctx.mismatches)) == before
 
 
